@@ -24,30 +24,30 @@ var (
 // closed / faulted); Write records bytes, optionally parking until released; Close makes
 // every pending and later Read/Write fail.
 type Transport struct {
-	In        []byte
-	CanRead   bool
-	EOF       bool
-	Closed    bool
-	Closes    int
-	Out       []byte
-	Writes    int
-	Gate      *bool // when set, writes park until *gate
-	WParked   bool
-	FaultRead int // fail the k-th Read (1-based), 0 = never
-	FaultWrite int
-	Reads     int
-	InWrite   bool
-	Reenter   bool
-	InRead    bool
-	RReenter  bool
-	Dead      bool // after a fault every call fails
-	Chunk     int  // when > 0, a Read returns at most this many bytes
+	In             []byte
+	CanRead        bool
+	EOF            bool
+	Closed         bool
+	Closes         int
+	Out            []byte
+	Writes         int
+	Gate           *bool // when set, writes park until *gate
+	WParked        bool
+	FaultRead      int // fail the k-th Read (1-based), 0 = never
+	FaultWrite     int
+	Reads          int
+	InWrite        bool
+	Reenter        bool
+	InRead         bool
+	RReenter       bool
+	Dead           bool // after a fault every call fails
+	Chunk          int  // when > 0, a Read returns at most this many bytes
 	WriteOnlyFault bool // a write fault leaves the read side healthy (only writes fail from then on)
-	WDead     bool
-	CloseGate *bool // when set, Close parks (after failing pending I/O) until *CloseGate
-	CloseErr  error // what Close returns
-	InClose   bool
-	CloseRet  bool // a Close call has returned
+	WDead          bool
+	CloseGate      *bool // when set, Close parks (after failing pending I/O) until *CloseGate
+	CloseErr       error // what Close returns
+	InClose        bool
+	CloseRet       bool // a Close call has returned
 }
 
 func (t *Transport) Feed(b []byte) {
@@ -144,9 +144,9 @@ type Ctx struct {
 
 func NewCtx() *Ctx { return &Ctx{done: make(chan struct{})} }
 
-func (c *Ctx) Deadline() (time.Time, bool)       { return time.Time{}, false }
-func (c *Ctx) Done() <-chan struct{}             { return c.done }
-func (c *Ctx) Err() error                        { return c.err }
+func (c *Ctx) Deadline() (time.Time, bool) { return time.Time{}, false }
+func (c *Ctx) Done() <-chan struct{}       { return c.done }
+func (c *Ctx) Err() error                  { return c.err }
 func (c *Ctx) Value(key interface{}) interface{} {
 	if c.Vals == nil {
 		return nil
